@@ -281,6 +281,9 @@ func e2eExec(c *e2eCase, work string, tr *vTrace, logLines bool) (*e2eResult, ma
 	runStart := time.Now()
 	vm0 := e2eVmPeakMB()
 	res := e2eRun(o, w, hooks)
+	if len(res.Hung) > 0 {
+		e2eTainted = true
+	}
 	if c.Plan.Mutate != nil && stopAt.IsZero() {
 		stopAt = runStart
 	}
@@ -672,3 +675,6 @@ func e2eDropEnv(env []string, key string) []string {
 	}
 	return res
 }
+
+// e2eTainted: a role of an earlier run in this process did not return and may still be running.
+var e2eTainted bool
